@@ -385,6 +385,68 @@ def correspond(ctx, scale):
                         break
         except Exception as ex:
             failures.append({'key': f'{gname}:one-group-in-eval:exception:{type(ex).__name__}', 'what': f'{gname}: {ex!r}', 'case': dict(cls=gname, submodule_toggle=True)})
+    # POISONED dropped layers (round 10, seed C12-j): a dropped layer is not run, so nothing it owns is READ - every float parameter and buffer of the
+    # layers the seed drops is overwritten (NaN / +inf / finite 1e37, whose sum overflows) and the same call repeated: output, indices and per-layer
+    # losses are bit-identical to the first call, and the dropped entries are exactly zero (a term such as `codebook.sum() * 0.` is nan there)
+    import copy as _copy
+    from vector_quantize_pytorch import ResidualVQ as _RVQ, ResidualSimVQ as _RSVQ, ResidualLFQ as _RLFQ, ResidualFSQ as _RFSQ
+    poison_cfgs = [
+        ('ResidualVQ-ema', lambda: _RVQ(dim=4, codebook_size=5, num_quantizers=4, quantize_dropout=True), {'freeze_codebook': True}),
+        ('ResidualVQ-learnable', lambda: _RVQ(dim=4, codebook_size=5, num_quantizers=4, quantize_dropout=True, learnable_codebook=True, ema_update=False), {}),
+        ('ResidualVQ-implicit-neural', lambda: _RVQ(dim=4, codebook_size=5, num_quantizers=4, quantize_dropout=True, implicit_neural_codebook=True), {}),
+        ('ResidualVQ-cosine-orth', lambda: _RVQ(dim=4, codebook_size=5, num_quantizers=4, quantize_dropout=True, use_cosine_sim=True, orthogonal_reg_weight=0.5), {'freeze_codebook': True}),
+        ('ResidualVQ-proj-learnable', lambda: _RVQ(dim=6, codebook_dim=3, codebook_size=5, num_quantizers=3, quantize_dropout=True, learnable_codebook=True, ema_update=False), {}),
+        ('ResidualSimVQ', lambda: _RSVQ(dim=4, codebook_size=6, num_quantizers=4, quantize_dropout=True), {}),
+        ('ResidualLFQ', lambda: _RLFQ(dim=3, codebook_size=8, num_quantizers=4, quantize_dropout=True), {}),
+        ('ResidualFSQ', lambda: _RFSQ(levels=[3, 3], dim=2, num_quantizers=4, quantize_dropout=True), {}),
+    ]
+    dist['poisoned_dropped_layers'] = 0
+    for pi, (pname, pmk, pkw) in enumerate(poison_cfgs):
+        try:
+            torch.manual_seed(4200 + pi)
+            q0 = pmk()
+            q0.train()
+            nl = len(q0.layers)
+            xq = torch.randn(2, 5, q0.layers[0].dim if hasattr(q0.layers[0], 'dim') and isinstance(getattr(q0.layers[0], 'dim'), int) else {'ResidualLFQ': 3, 'ResidualFSQ': 2}.get(pname, 4))
+            if pname == 'ResidualVQ-proj-learnable':
+                xq = torch.randn(2, 5, 6)
+            for seed in range(6):
+                for poison_i, poison in enumerate((float('nan'), float('inf'), 1e37)):
+                    q1 = _copy.deepcopy(q0)
+                    ret1 = q1(xq, rand_quantize_dropout_fixed_seed=seed, **pkw)
+                    idx1 = ret1[1]
+                    dropped = [k for k in range(nl) if bool((idx1[..., k] == -1).all())]
+                    if not dropped:
+                        continue
+                    q2 = _copy.deepcopy(q0)
+                    with torch.no_grad():
+                        for k in dropped:
+                            for t in list(q2.layers[k].parameters()) + list(q2.layers[k].buffers()):
+                                if t.dtype.is_floating_point:
+                                    t.fill_(poison)
+                        if pname == 'ResidualVQ-implicit-neural':
+                            for k in dropped:
+                                if k - 1 >= 0 and k - 1 < len(q2.mlps):
+                                    for t in q2.mlps[k - 1].parameters():
+                                        t.fill_(poison)
+                    ret2 = q2(xq, rand_quantize_dropout_fixed_seed=seed, **pkw)
+                    evaluations += 1
+                    dist['poisoned_dropped_layers'] += 1
+                    what = None
+                    for ri, (a, b) in enumerate(zip(ret1, ret2)):
+                        if isinstance(a, torch.Tensor):
+                            if not torch.equal(torch.nan_to_num(a.float(), nan=12345.0), torch.nan_to_num(b.float(), nan=54321.0)):
+                                what = f'result {ri} changes when the parameters of the DROPPED layers {dropped} are overwritten with {poison}: first {a.reshape(-1)[:6].tolist()} then {b.reshape(-1)[:6].tolist()}'
+                                break
+                    if what is None and len(ret2) > 2 and isinstance(ret2[2], torch.Tensor) and ret2[2].reshape(-1).numel() == nl:
+                        lo = ret2[2].reshape(-1)
+                        bad = [k for k in dropped if not float(lo[k]) == 0.0]
+                        if bad:
+                            what = f'dropped layers {bad} report loss {[float(lo[k]) for k in bad]} (must be exactly 0)'
+                    if what:
+                        failures.append({'key': f'{pname}:poisoned-dropped-layers:{poison}', 'what': f'{pname} seed {seed}: {what}', 'case': dict(cls=pname, seed=seed, poison=str(poison), poisoned=True)})
+        except Exception as ex:
+            failures.append({'key': f'{pname}:poisoned-dropped-layers:exception:{type(ex).__name__}', 'what': f'{pname}: {ex!r}', 'case': dict(cls=pname, poisoned=True)})
     # supplied indices (ResidualVQ): dropout must not happen -> output equals the all-layer output
     from vector_quantize_pytorch import ResidualVQ
     for (n, c, m) in cfgs[:3]:
